@@ -45,8 +45,8 @@ KEYWORD_PREFIX_DOCS = [
 ]
 
 
-# layouts of the document without declarations: blanks only.  The real parser rejects them (finding F-15b, class
-# blank-only-document, fam/idl/FINDINGS.md); reported through known_findings.json until the parser is repaired
+# layouts of the document without declarations: blanks only (rejected before /repo 25b7876 -- finding F-15b, fixed; a
+# regression is an ordinary violation)
 BLANK_ONLY_DOCS = [" ", "\n", "// c\n", "# licence", "/* x */", " \t\r\n// a\n/* b */\n", "//"]
 
 
@@ -159,15 +159,13 @@ def run(chk, replay=None):
     t0 = time.time()
     model = core.run_lines(FAM.runner, lines, timeout=1500) if os.path.exists(FAM.runner) else None
     chk.cov["wall_model"] = round(time.time() - t0, 2)
-    failing, mism, src_model, known = [], [], [], []
+    failing, mism, src_model = [], [], []
     groups = {}
     for prof, b in bins:
         impl = core.run_lines(b, lines, timeout=900)
         for idx, ((c, canon, kind, grp), o) in enumerate(zip(cases, impl)):
             why = oracle(o, canon)
-            if why and kind == "blank-only":
-                known.append((c, canon, kind, "%s [%s build]" % (why, prof), o))
-            elif why:
+            if why:
                 failing.append((c, canon, kind, "%s [%s build]" % (why, prof), o))
             if grp is not None and prof == "debug":
                 groups.setdefault(grp, set()).add(o.split(" ", 2)[2] if o.startswith("OK 0 ") else o)
@@ -178,7 +176,7 @@ def run(chk, replay=None):
             failing.append(("", None, "layout", "the same document parses differently under different layouts (group %d)" % grp, ""))
     if model is not None:
         for (c, canon, kind, grp), m in zip(cases, model):
-            if canon is not None and m != "OK 0 " + canon and kind != "blank-only":
+            if canon is not None and m != "OK 0 " + canon:
                 src_model.append((c, canon, kind, m))
     # the Coq printer against the Python printer
     tie = printer_tie(chk, rng, hb) if replay is None else None
@@ -200,11 +198,6 @@ def run(chk, replay=None):
                            [x.split(" ")[0] for x in canon.split("(")[1:] if x.split(" ")[0] in
                             ("include", "cpp_include", "namespace", "typedef", "const", "enum", "struct", "union", "exception", "service",
                              "fn", "field", "list", "set", "map", "ev", "double", "int", "str", "bool", "path")])))
-    for c, canon, kind, why, o in known[:1]:
-        chk.violation("C15 fails on the implementation: a layout of the empty document (blanks only) is rejected: " + why,
-                      dict(kind="case", case=c, case_kind=kind, expected=canon, impl_output=o[:300],
-                           text=bytes.fromhex(c.split(" ")[1]).decode("utf-8")), cls="blank-only-document")
-    chk.cov["known_finding_cases"] = len(known)
     seen = set()
     for c, canon, kind, why, o in failing:
         key = why.split("[")[0][:60]
